@@ -202,6 +202,11 @@ func (x *Exec) verify(fn *ssa.Function, ct *Contract, rep *FuncReport) {
 	// type invariants of pointer parameters are assumed when they are dereferenced (nilCheck).
 	// preconditions
 	fc.entry = st.clone()
+	gev := x.newEval(nil, st, nil)
+	gev.callee = true
+	for _, cl := range x.prog.cs.Assumes {
+		st.assume(gev.boolExpr(cl.Expr))
+	}
 	ev := x.newEval(fr, st, nil)
 	for _, cl := range ct.Requires {
 		st.assume(ev.boolExpr(cl.Expr))
@@ -268,11 +273,40 @@ func (p *Program) discharge(rep *FuncReport, budget int, workers int) {
 		go func() {
 			defer wg.Done()
 			defer func() { <-sem }()
-			q := x.buildQuery(ob.node)
-			r := solve(q, budget, false)
+			r := x.solveObligation(ob.node, budget)
 			ob.result = r
 			ob.status = r.Status
 		}()
 	}
 	wg.Wait()
+}
+
+func hasNL(n *LogNode) bool {
+	for ; n != nil; n = n.Parent {
+		if n.NL {
+			return true
+		}
+	}
+	return false
+}
+
+// solveObligation: first with nonlinear definitions abstracted away (fast, often enough), then the
+// full query through the portfolio.
+func (x *Exec) solveObligation(n *LogNode, budget int) SolveResult {
+	var spent int64
+	if hasNL(n) {
+		q := x.buildQueryOpt(n, true)
+		for _, s := range []int{0, 1} {
+			r := runSolver(solvers[s], q, 2, false)
+			spent += r.Ms
+			if r.Status == "unsat" {
+				r.Ms = spent
+				r.Solver += "(nl-abstracted)"
+				return r
+			}
+		}
+	}
+	r := solve(x.buildQuery(n), budget, false)
+	r.Ms += spent
+	return r
 }
